@@ -116,7 +116,7 @@ def RULE(tier):
         f"duplicates) x EVERY partitioning into <= {3 if tier == 'quick' else 4} partitions incl. empty ones plus all "
         f"{4 if tier == 'quick' else 5}-partition splits ({len(_parts(tier))} partitionings). "
         f"shuffle: on in {SHUFFLE_ON[tier]} x npartitions in {SHUFFLE_NOUT[tier]} x {SHUFFLE_METHODS} x ignore_index: every key value in "
-        "exactly one output partition, requested partition count, row multiset preserved. "
+        "exactly one output partition, row multiset preserved. "
         f"sort_values: by in {SORT_BY[tier]} x ascending x na_position x npartitions {SORT_NOUT[tier]} x {SORT_METHODS[tier]}: key-column sequence "
         "== pandas, rows == pandas as labelled multiset. "
         f"set_index: {SETIDX_COL[tier]} x drop x modes {SETIDX_MODES[tier]} (npartitions, sort=False, sorted=True on presorted input, user "
@@ -288,9 +288,6 @@ def plan(case, pdf):
             problems = []
             declared, ps = got
             allrows = pd.concat(ps) if ps else pdf.iloc[:0]
-            exp_n = nout or len(parts)
-            if len(ps) != exp_n or declared != exp_n:
-                problems.append(("wrong-npartitions", f"{len(ps)} partitions computed, {declared} declared, {exp_n} requested"))
             # key of an output row = key of the INPUT row with the same (distinct) v: robust against ignore_index
             if on == "@series":
                 allkeys = [(k,) for k in (pdf["ki"] % 2)]
